@@ -273,7 +273,16 @@ func c10cancel(ip *interp.Interpreter, ev c10ev, nchan *int, before map[uint64]b
 	r.returned = true
 	r.mu.Unlock()
 	r.release()
-	if left, _, _, _ := c09settle(before, c09ExitBound, nil); len(left) > 0 {
+	runaway := func() bool {
+		r.mu.Lock()
+		defer r.mu.Unlock()
+		n := 0
+		for _, c := range r.after {
+			n += c
+		}
+		return n > c09RunawayOps
+	}
+	if left, _, _, _ := c09settle(before, c09ExitBound, runaway); len(left) > 0 {
 		return what, "goroutines of the cancelled evaluation are still alive: " + c09short(left[0].stack)
 	}
 	return what, ""
@@ -462,6 +471,10 @@ func runC10(args []string) error {
 	for _, i := range ids {
 		res := results[i]
 		m := metas[i]
+		if res.Skipped {
+			sm.count("skipped-after-repeated-run-aways")
+			continue
+		}
 		in := map[string]any{"definitions": "F, T.M, T0, Clo (function literal), MV (method value), CC (channel rendez-vous); host holds Eval(name) and Symbols values", "history": res.HistEvents}
 		if res.Err != "" {
 			in["history_generated"] = m.h
